@@ -209,10 +209,13 @@ class AstToSqlVisitor(visitor.NodeVisitor):
         right = self.visit(node.right)
         comparator = self.visit(node.comparator)
 
-        # In case of a subexpression, wrap it in parentheses
-        if isinstance(node.left, (ast.BoolOp, ast.Compare)):
+        # In case of a subexpression that binds looser than (or as loose as) a
+        # comparison, wrap it in parentheses. Besides boolean operators and
+        # comparisons this includes `not` and functions rendered as a predicate,
+        # e.g. `(NOT x) = TRUE` and `(x LIKE '%a%') = TRUE`.
+        if self._sql_precedence(node.left) <= 4:
             left = f"({left})"
-        if isinstance(node.right, (ast.BoolOp, ast.Compare)):
+        if self._sql_precedence(node.right) <= 4:
             right = f"({right})"
 
         #  'eq/ne null' should become 'IS (NOT) NULL' instead of '(!)= NULL'
